@@ -218,8 +218,19 @@ Inductive mutop :=
 | MPut (k : list byte) (v : jv)     (* json_object_object_add *)
 | MDel (k : list byte)              (* json_object_object_del *)
 | MSetInt (z : Z)                   (* json_object_set_int64 *)
+| MSetUint (z : Z)                  (* json_object_set_uint64 *)
+| MSetBool (b : bool)               (* json_object_set_boolean *)
 | MSetStr (s : list byte)           (* json_object_set_string_len *)
-| MSetDouble (bits : Z).            (* json_object_set_double: drops the retained text *)
+| MSetDouble (bits : Z)             (* json_object_set_double: drops the retained text *)
+| MArrPut (i : Z) (v : jv)          (* json_object_array_put_idx: replaces, or extends with null slots *)
+| MArrDel (i : Z) (c : Z).          (* json_object_array_del_idx(i, c) *)
+
+Fixpoint list_set {A} (l : list A) (i : nat) (x : A) : list A :=
+  match l, i with
+  | [], _ => []
+  | _ :: t, O => x :: t
+  | y :: t, S i' => y :: list_set t i' x
+  end.
 
 Definition apply_mut (m : mutop) (v : jv) : option jv :=
   match m, v with
@@ -228,16 +239,19 @@ Definition apply_mut (m : mutop) (v : jv) : option jv :=
   | MDel k, JObj l => Some (JObj (obj_del l k))
   | MSetInt z, JInt _ => Some (JInt z)
   | MSetInt z, JUint _ => Some (JInt z)
+  | MSetUint z, JInt _ => Some (JUint z)
+  | MSetUint z, JUint _ => Some (JUint z)
+  | MSetBool b, JBool _ => Some (JBool b)
+  | MArrPut i x, JArr l =>
+      if i <? 0 then None
+      else if i <? zlen l then Some (JArr (list_set l (Z.to_nat i) x))
+      else Some (JArr (l ++ zrepeat JNull (i - zlen l) ++ [x]))
+  | MArrDel i c, JArr l =>
+      if (i <? 0) || (c <? 0) || (i >=? zlen l) || (i + c >? zlen l) then None
+      else Some (JArr (zfirstn i l ++ zskipn (i + c) l))
   | MSetStr s, JStr _ => Some (JStr s)
   | MSetDouble b, JDouble _ _ => Some (JDouble b None)
   | _, _ => None
-  end.
-
-Fixpoint list_set {A} (l : list A) (i : nat) (x : A) : list A :=
-  match l, i with
-  | [], _ => []
-  | _ :: t, O => x :: t
-  | y :: t, S i' => y :: list_set t i' x
   end.
 
 Fixpoint mutate_at (p : list step) (m : mutop) (v : jv) : option jv :=
@@ -265,6 +279,33 @@ Fixpoint mutate_at (p : list step) (m : mutop) (v : jv) : option jv :=
                   end
       | _ => None
       end
+  end.
+
+(* a history: mutations applied one after the other; one that does not fit (path does not
+   resolve, wrong type, index out of range) is refused by the library and changes nothing.
+   The pure tree has no notion of HOW a value was reached (inline or separately allocated
+   string storage, int64/uint64 switched by a setter, array capacity, hash-table tombstones):
+   every theorem about [jv_equal] / [deep_copy] on well-formed trees applies to the result
+   of every history (EqProofs.run_history_wf). *)
+Fixpoint run_history (h : list (list step * mutop)) (v : jv) : jv * list bool :=
+  match h with
+  | [] => (v, [])
+  | (p, m) :: t =>
+      match mutate_at p m v with
+      | Some v' => let (r, oks) := run_history t v' in (r, true :: oks)
+      | None => let (r, oks) := run_history t v in (r, false :: oks)
+      end
+  end.
+
+(* arguments a caller can pass: values of the C parameter types, well-formed subtrees *)
+Definition mutop_wf (m : mutop) : Prop :=
+  match m with
+  | MAppend v => jv_wf v
+  | MPut _ v => jv_wf v
+  | MArrPut _ v => jv_wf v
+  | MSetInt z => INT64_MIN <= z <= INT64_MAX
+  | MSetUint z => 0 <= z <= UINT64_MAX
+  | _ => True
   end.
 
 (* ------------------------------------------------------------------ node addresses *)
